@@ -386,4 +386,472 @@ theorem bins_contiguous_iff' (s : List Int) (hn : s.Nodup) (mn mx : Int)
     have a4 := hmax (s.length : Int) ((h _).mpr ⟨by omega, by omega⟩)
     omega
 
+/-! ### shape -/
+
+theorem rowOfList_isSome (r : List Int) : (∃ a, rowOfList r = some a) ↔ r.length = 6 := by
+  constructor
+  · rintro ⟨a, h⟩
+    match r, h with
+    | [_, _, _, _, _, _], _ => rfl
+  · intro h
+    match r, h with
+    | [a, b, c, d, e, f], _ => exact ⟨_, rfl⟩
+
+theorem rowsR_length (P : Packing) (h : ∀ r ∈ P.rows, r.length = 6) :
+    P.rowsR.length = P.rows.length := by
+  unfold Packing.rowsR
+  generalize P.rows = l at h
+  induction l with
+  | nil => rfl
+  | cons r t ih =>
+    obtain ⟨a, ha⟩ := (rowOfList_isSome r).mpr (h r (by simp))
+    simp only [List.filterMap_cons, ha, List.length_cons, ih (fun x hx => h x (by simp [hx]))]
+
+theorem nItems_pos (I : Inst) (hV : I.Valid) : 1 ≤ I.nItems := by
+  obtain ⟨_, _, _, _, h5, _, h7, _⟩ := hV
+  unfold Inst.nItems
+  cases hI : I.items with
+  | nil => rw [hI] at h5; simp at h5
+  | cons a t =>
+    rw [hI] at h7
+    have h1 := (h7 a (by simp)).2.2.2.2.1
+    have h2 := sum_map_nonneg t (·.rep) (fun b hb => by have := (h7 b (by simp [hb])).2.2.2.2.1; omega)
+    simp only [List.map_cons, List.sum_cons]
+    omega
+
+theorem checkMult_ok (I : Inst) (rows : List Row) :
+    checkMult I rows = .ok () ↔ firstBadMult I rows = none := by
+  unfold checkMult
+  cases firstBadMult I rows <;> simp
+
+theorem checkBins_ok (rows : List Row) (nBins : Int) :
+    checkBins rows nBins = .ok () ↔
+      ∃ mx mn, (binSet (rows.map (·.bin))).max? = some mx ∧ (binSet (rows.map (·.bin))).min? = some mn ∧
+        mn = 1 ∧ mx - mn + 1 = ((binSet (rows.map (·.bin))).length : Int) ∧
+        nBins = ((binSet (rows.map (·.bin))).length : Int) := by
+  unfold checkBins
+  generalize binSet (rows.map (·.bin)) = s
+  cases h1 : s.max? with
+  | none => simp [h1]
+  | some mx =>
+    cases h2 : s.min? with
+    | none => simp [h1, h2]
+    | some mn =>
+      simp only [h1, h2, Option.some.injEq]
+      by_cases h3 : mn ≠ 1 ∨ mx - mn + 1 ≠ (s.length : Int)
+      · rw [if_pos h3]
+        constructor
+        · intro h; cases h
+        · rintro ⟨mx', mn', rfl, rfl, h⟩; omega
+      · rw [if_neg h3]
+        by_cases h4 : nBins ≠ (s.length : Int)
+        · rw [if_pos h4]
+          constructor
+          · intro h; cases h
+          · rintro ⟨mx', mn', rfl, rfl, h⟩; omega
+        · rw [if_neg h4]
+          simp only [true_iff]
+          exact ⟨mx, mn, rfl, rfl, by omega, by omega, by omega⟩
+
+/-- the validator, unfolded into its independent checks -/
+theorem validate_ok_parts (I : Inst) (P : Packing) :
+    validate I P = .ok () ↔
+      P.ownInst = true ∧ I.dtype? = some P.dtype ∧ P.HasShape I.nItems ∧
+      (1 ≤ I.W ∧ I.W ≤ 1000000000000 ∧ 1 ≤ I.H ∧ I.H ≤ 1000000000000) ∧
+      checkRowsFrom I P.rowsR 0 P.rowsR = .ok () ∧ checkMult I P.rowsR = .ok () ∧
+      checkBins P.rowsR P.nBins = .ok () := by
+  unfold validate
+  by_cases h1 : P.ownInst = false
+  · simp [h1]
+  have h1' : P.ownInst = true := by simpa using h1
+  by_cases h2 : I.dtype? ≠ some P.dtype
+  · simp [h1, h2]
+  by_cases h3 : ¬ P.HasShape I.nItems
+  · simp [h1, h2, h3]
+  by_cases h4 : I.W < 1 ∨ I.W > 1000000000000 ∨ I.H < 1 ∨ I.H > 1000000000000
+  · simp only [h1, h2, h3, h4, if_true, if_false]
+    constructor
+    · intro h; cases h
+    · intro h; omega
+  rw [if_neg h1, if_neg h2, if_neg h3, if_neg h4]
+  have h2' : I.dtype? = some P.dtype := by simpa using h2
+  have h3' : P.HasShape I.nItems := by simpa using h3
+  simp only [bind_ok_iff]
+  exact ⟨fun h => ⟨h1', h2', h3', by omega, h⟩, fun h => h.2.2.2.2⟩
+
+/-- what the row loop, the multiplicity counter and the bin checks accept is exactly
+`Pack.Feasible`, for rows of the right number -/
+theorem checks_iff_feasible (I : Inst) (hV : I.Valid) (rows : List Row) (nBins : Int)
+    (hlen : (rows.length : Int) = I.nItems) :
+    (checkRowsFrom I rows 0 rows = .ok () ∧ checkMult I rows = .ok () ∧
+      checkBins rows nBins = .ok ()) ↔ Feasible I rows nBins := by
+  have hrep : ∀ it ∈ I.items, 1 ≤ it.rep := fun it hit => (hV.2.2.2.2.2.2.1 it hit).2.2.2.2.1
+  have hwh : ∀ it ∈ I.items, 1 ≤ it.w ∧ 1 ≤ it.h := fun it hit =>
+    ⟨(hV.2.2.2.2.2.2.1 it hit).1, (hV.2.2.2.2.2.2.1 it hit).2.2.1⟩
+  have hnpos := nItems_pos I hV
+  rw [checkRowsFrom_ok, checkMult_ok, firstBadMult_none, checkBins_ok]
+  have hs := nodup_binSet (rows.map (·.bin))
+  have hsm := mem_binSet (rows.map (·.bin))
+  have hsl := length_binSet_le (rows.map (·.bin))
+  generalize binSet (rows.map (·.bin)) = s at hs hsm hsl ⊢
+  rw [List.length_map] at hsl
+  unfold Feasible
+  constructor
+  · rintro ⟨hrows, hmult, mx, mn, hmx, hmn, hb⟩
+    have hrow : ∀ k (h : k < rows.length), checkRow I rows k rows[k] = .ok () := by
+      intro k h; simpa using hrows k h
+    simp only [checkRow_ok] at hrow
+    have hmem : ∀ a ∈ rows, ∃ k, ∃ h : k < rows.length, rows[k] = a :=
+      fun a ha => List.getElem_of_mem ha
+    have hset := (bins_contiguous_iff' s hs mn mx hmn hmx).mp ⟨hb.1, hb.2.1⟩
+    refine ⟨hlen, ?_, ?_, ?_, ?_, ?_, ?_⟩
+    · intro a ha
+      obtain ⟨k, hk, rfl⟩ := hmem a ha
+      exact (hrow k hk).2.2.2.2.1
+    · intro a ha
+      obtain ⟨k, hk, rfl⟩ := hmem a ha
+      exact (hrow k hk).2.2.2.1
+    · exact mult_check_suffices' I rows hrep hlen
+        (fun a ha => by obtain ⟨k, hk, rfl⟩ := hmem a ha; exact (hrow k hk).1) hmult
+    · rw [← overlap_loop_iff_pairwise']
+      intro i hi
+      exact (hrow i hi).2.2.2.2.2
+    · intro a ha
+      have := (hset a.bin).mp ((hsm a.bin).mpr (List.mem_map.mpr ⟨a, ha, rfl⟩))
+      omega
+    · intro j hj
+      rw [List.mem_range] at hj
+      have : ((j : Int) + 1) ∈ s := (hset _).mpr ⟨by omega, by omega⟩
+      obtain ⟨a, ha, hab⟩ := List.mem_map.mp ((hsm _).mp this)
+      exact ⟨a, ha, hab⟩
+  · rintro ⟨_, f2, f3, f4, f5, f6, f7⟩
+    have hne : rows ≠ [] := by intro h; rw [h] at hlen; simp at hlen; omega
+    obtain ⟨a0, ha0⟩ := List.exists_mem_of_ne_nil rows hne
+    have hk1 : 1 ≤ nBins := by have := f6 a0 ha0; omega
+    -- the set of bins is exactly 1..nBins
+    have hset : ∀ v : Int, v ∈ s ↔ 1 ≤ v ∧ v ≤ nBins := by
+      intro v
+      rw [hsm, List.mem_map]
+      constructor
+      · rintro ⟨a, ha, rfl⟩; exact f6 a ha
+      · intro hv
+        obtain ⟨a, ha, hab⟩ := f7 (v - 1).toNat (by rw [List.mem_range]; omega)
+        exact ⟨a, ha, by omega⟩
+    have hcard : (s.length : Int) = nBins := by
+      have h1 := nodup_range_length_le nBins.toNat s hs (fun v hv => by have := (hset v).mp hv; omega)
+      have h2 := length_ge_of_range_subset nBins.toNat s (fun v h1 h2 => (hset v).mpr ⟨h1, by omega⟩)
+      omega
+    have hs0 : s ≠ [] := by intro h; rw [h] at hcard; simp at hcard; omega
+    obtain ⟨mx, hmx⟩ : ∃ mx, s.max? = some mx := by
+      cases h : s.max? with
+      | none => exact absurd (List.max?_eq_none_iff.mp h) hs0
+      | some mx => exact ⟨mx, rfl⟩
+    obtain ⟨mn, hmn⟩ : ∃ mn, s.min? = some mn := by
+      cases h : s.min? with
+      | none => exact absurd (List.min?_eq_none_iff.mp h) hs0
+      | some mn => exact ⟨mn, rfl⟩
+    have hb := (bins_contiguous_iff' s hs mn mx hmn hmx).mpr (fun v => by rw [hset, hcard])
+    refine ⟨?_, ?_, mx, mn, hmx, hmn, hb.1, hb.2, hcard.symm⟩
+    · intro k hk
+      simp only [Nat.zero_add, checkRow_ok]
+      have hk' := List.getElem_mem hk
+      obtain ⟨it, hit, hd⟩ := f2 _ hk'
+      have hr := item?_some_range I _ it hit
+      have hpos := hwh it hr.2.2
+      have hin := f3 _ hk'
+      have hbin := f6 _ hk'
+      refine ⟨⟨hr.1, hr.2.1⟩, ⟨hbin.1, by omega⟩, ?_, hin, ⟨it, hit, hd⟩, ?_⟩
+      · unfold Row.HasDims at hd; omega
+      · exact (overlap_loop_iff_pairwise' rows).mpr f5 k hk
+    · intro a ha
+      obtain ⟨it, hit, _⟩ := f2 a ha
+      refine ⟨it, hit, ?_⟩
+      have hr := item?_some_range I _ it hit
+      have hi : (a.id - 1).toNat < I.nTypes := by omega
+      have h4 := f4 (a.id - 1).toNat (List.mem_range.mpr hi)
+      have e : (((a.id - 1).toNat : Nat) : Int) + 1 = a.id := by omega
+      rw [e] at h4
+      have hit' := hit
+      rw [← e, item?_succ] at hit'
+      unfold Inst.nTypes at hi
+      rw [List.getD_eq_getElem?_getD, hit'] at h4
+      simp only [Option.getD_some] at h4
+      rw [← h4]; rfl
+
+/-! ### text form -/
+
+theorem splitSemi_ne_nil (cs : List Char) : splitSemi cs ≠ [] := by
+  induction cs with
+  | nil => simp [splitSemi]
+  | cons c t ih =>
+    unfold splitSemi
+    split
+    · simp
+    · split <;> simp
+
+theorem splitSemi_token (t : List Char) (h : ';' ∉ t) : splitSemi t = [t] := by
+  induction t with
+  | nil => rfl
+  | cons c t ih =>
+    have hc : c ≠ ';' := fun e => h (by simp [e])
+    have ht : ';' ∉ t := fun e => h (by simp [e])
+    simp only [splitSemi, hc, if_false, ih ht]
+
+theorem splitSemi_append (t rest : List Char) (h : ';' ∉ t) :
+    splitSemi (t ++ ';' :: rest) = t :: splitSemi rest := by
+  induction t with
+  | nil => simp [splitSemi]
+  | cons c t ih =>
+    have hc : c ≠ ';' := fun e => h (by simp [e])
+    have ht : ';' ∉ t := fun e => h (by simp [e])
+    simp only [List.cons_append, splitSemi, hc, if_false, ih ht]
+
+/-- splitting the `;`-joined text gives back the tokens (at least one token, none containing `;`) -/
+theorem splitSemi_joinSemi (toks : List (List Char)) (hne : toks ≠ []) (h : ∀ t ∈ toks, ';' ∉ t) :
+    splitSemi (joinSemi toks) = toks := by
+  induction toks with
+  | nil => exact absurd rfl hne
+  | cons t ts ih =>
+    cases ts with
+    | nil => simpa [joinSemi] using splitSemi_token t (h t (by simp))
+    | cons t' ts' =>
+      simp only [joinSemi]
+      rw [splitSemi_append t _ (h t (by simp)), ih (by simp) (fun x hx => h x (by simp [hx]))]
+
+theorem repr_no_semi (v : Int) : ';' ∉ v.repr.toList := by
+  have hd : ∀ n : Nat, ';' ∉ (Nat.repr n).toList := by
+    intro n hn
+    simp only [Nat.repr, String.toList_ofList] at hn
+    have := Nat.isDigit_of_mem_toDigits (by decide) (by decide) hn
+    exact absurd this (by decide)
+  cases v with
+  | ofNat m => exact hd m
+  | negSucc m =>
+    intro hn
+    simp only [Int.repr, String.toList_append, List.mem_append] at hn
+    rcases hn with hn | hn
+    · exact absurd hn (by decide)
+    · exact hd _ hn
+
+theorem parse_repr (v : Int) : (String.ofList v.repr.toList).toInt? = some v := by
+  rw [String.ofList_toList]; exact Int.toInt?_repr v
+
+theorem mapM_parse (l : List Int) :
+    (l.map (fun v => v.repr.toList)).mapM (fun t => (String.ofList t).toInt?) = some l := by
+  induction l with
+  | nil => rfl
+  | cons a t ih => simp [List.mapM_cons, ih]
+
+/-- the text form is the `;`-separated decimal values, row by row, and parses back to them -/
+theorem parseInts_toStr (P : Packing) (h : P.flat ≠ []) : parseInts (toStr P) = some P.flat := by
+  unfold parseInts toStr
+  rw [String.toList_ofList, splitSemi_joinSemi _ (by simpa using h)
+    (fun t ht => by obtain ⟨v, _, rfl⟩ := List.mem_map.mp ht; exact repr_no_semi v)]
+  exact mapM_parse _
+
+theorem reshape6_flatten (rows : List (List Int)) (h : ∀ r ∈ rows, r.length = 6) :
+    reshape6 rows.flatten = some rows := by
+  induction rows with
+  | nil => rfl
+  | cons r t ih =>
+    have hr := h r (by simp)
+    match r, hr with
+    | [a, b, c, d, e, f], _ =>
+      simp [reshape6, ih (fun x hx => h x (by simp [hx]))]
+
+theorem reshape6_rows (vals : List Int) : ∀ rows, reshape6 vals = some rows → ∀ r ∈ rows, r.length = 6 := by
+  induction vals using reshape6.induct with
+  | case1 => intro rows h; cases h; simp
+  | case2 a b c d e f rest ih =>
+    intro rows h
+    simp only [reshape6, Option.map_eq_some_iff] at h
+    obtain ⟨rs, h1, rfl⟩ := h
+    intro r hr
+    rcases List.mem_cons.mp hr with rfl | hr
+    · rfl
+    · exact ih rs h1 r hr
+  | case3 l h1 h2 => intro rows h; simp [reshape6] at h
+
+theorem bins_of_rows (rows : List (List Int)) (h : ∀ r ∈ rows, r.length = 6) :
+    rows.map (fun r => r.getD 1 0) = (rows.filterMap rowOfList).map (·.bin) := by
+  induction rows with
+  | nil => rfl
+  | cons r t ih =>
+    have hr := h r (by simp)
+    match r, hr with
+    | [a, b, c, d, e, f], _ =>
+      have := ih (fun x hx => h x (by simp [hx]))
+      simp only [List.map_cons, List.filterMap_cons, rowOfList, this]
+      rfl
+
+theorem max?_congr (l₁ l₂ : List Int) (h : ∀ v, v ∈ l₁ ↔ v ∈ l₂) : l₁.max? = l₂.max? := by
+  cases h1 : l₁.max? with
+  | none =>
+    rw [List.max?_eq_none_iff] at h1
+    subst h1
+    cases l₂ with
+    | nil => rfl
+    | cons a t => exact absurd ((h a).mpr (by simp)) (by simp)
+  | some m =>
+    rw [List.max?_eq_some_iff] at h1
+    exact (List.max?_eq_some_iff.mpr ⟨(h m).mp h1.1, fun b hb => h1.2 b ((h b).mpr hb)⟩).symm
+
+theorem fromStr_toStr' (I : Inst) (P : Packing) (h : validate I P = .ok ()) :
+    fromStr I (toStr P) = .ok P := by
+  obtain ⟨h1, h2, h3, _, _, _, hbins⟩ := (validate_ok_parts I P).mp h
+  rw [checkBins_ok] at hbins
+  obtain ⟨mx, mn, hmx, hmn, hb1, hb2, hb3⟩ := hbins
+  have hmx' : (P.rows.map (fun r => r.getD 1 0)).max? = some mx := by
+    rw [bins_of_rows P.rows h3.2, ← hmx]
+    exact max?_congr _ _ (fun v => (mem_binSet _ v).symm)
+  have hrows : P.rows ≠ [] := by
+    intro e; rw [e] at hmx'; simp at hmx'
+  have hflat : P.flat ≠ [] := by
+    unfold Packing.flat
+    cases hr : P.rows with
+    | nil => exact absurd hr hrows
+    | cons r t =>
+      have := h3.2 r (by rw [hr]; simp)
+      match r, this with
+      | [a, b, c, d, e, f], _ => simp
+  unfold fromStr
+  rw [parseInts_toStr P hflat]
+  simp only [Packing.flat, reshape6_flatten P.rows h3.2]
+  rw [if_neg (by simpa using h3.1)]
+  simp only [h2, hmx']
+  have hP : (⟨true, P.dtype, P.rows, mx⟩ : Packing) = P := by
+    cases P with
+    | mk o d r n =>
+      simp only at h1 hb3 ⊢
+      subst h1
+      congr 1
+      omega
+  rw [hP, h]
+  rfl
+
+theorem fromStr_validates' (I : Inst) (s : String) (Q : Packing) (h : fromStr I s = .ok Q) :
+    validate I Q = .ok () := by
+  unfold fromStr at h
+  split at h
+  · cases h
+  · split at h
+    · cases h
+    · split at h
+      · cases h
+      · split at h
+        · cases h
+        · split at h
+          · cases h
+          · rename_i mx _
+            revert h
+            generalize hP : (⟨true, _, _, mx⟩ : Packing) = P'
+            intro h
+            dsimp only at h
+            cases hv : validate I P' with
+            | error e => rw [hv] at h; cases h
+            | ok u =>
+              rw [hv] at h
+              simp only [Except.map] at h
+              cases h
+              cases u
+              exact hv
+
+theorem checkRow_no_oob (I : Inst) (all : List Row) (i : Nat) (a : Row) :
+    checkRow I all i a ≠ .error .oob := by
+  unfold checkRow
+  intro h
+  by_cases h1 : a.id ≤ 0 ∨ a.id > (I.nTypes : Int)
+  · rw [if_pos h1] at h; cases h
+  rw [if_neg h1] at h
+  by_cases h2 : a.bin ≤ 0 ∨ a.bin > I.nItems
+  · rw [if_pos h2] at h; cases h
+  rw [if_neg h2] at h
+  by_cases h3 : a.l ≥ a.r ∨ a.b ≥ a.t
+  · rw [if_pos h3] at h; cases h
+  rw [if_neg h3] at h
+  by_cases h4 : a.l < 0 ∨ a.b < 0 ∨ a.r > I.W ∨ a.t > I.H
+  · rw [if_pos h4] at h; cases h
+  rw [if_neg h4] at h
+  obtain ⟨it, hit⟩ := item?_of_range I a.id (by omega) (by omega)
+  simp only [hit] at h
+  split at h
+  · cases h
+  · split at h <;> cases h
+
+theorem checkRowsFrom_no_oob (I : Inst) (all : List Row) : ∀ (rest : List Row) (i : Nat),
+    checkRowsFrom I all i rest ≠ .error .oob := by
+  intro rest
+  induction rest with
+  | nil => intro i h; cases h
+  | cons a t ih =>
+    intro i h
+    simp only [checkRowsFrom] at h
+    cases h1 : checkRow I all i a with
+    | error e =>
+      rw [h1] at h
+      simp only [bind, Except.bind] at h
+      cases h
+      exact checkRow_no_oob I all i a h1
+    | ok u =>
+      rw [h1] at h
+      simp only [bind, Except.bind] at h
+      exact ih (i + 1) h
+
+theorem checkBins_no_oob (rows : List Row) (nBins : Int) : checkBins rows nBins ≠ .error .oob := by
+  unfold checkBins
+  intro h
+  dsimp only at h
+  split at h
+  · split at h
+    · cases h
+    · split at h <;> cases h
+  · cases h
+
+/-- every array read of the validator stays inside the instance matrix / the packing:
+the model never answers `oob` (C13 for `validate`) -/
+theorem validate_no_oob' (I : Inst) (P : Packing) : validate I P ≠ .error .oob := by
+  unfold validate
+  intro h
+  by_cases c1 : P.ownInst = false
+  · rw [if_pos c1] at h; cases h
+  rw [if_neg c1] at h
+  by_cases c2 : I.dtype? ≠ some P.dtype
+  · rw [if_pos c2] at h; cases h
+  rw [if_neg c2] at h
+  by_cases c3 : ¬ P.HasShape I.nItems
+  · rw [if_pos c3] at h; cases h
+  rw [if_neg c3] at h
+  by_cases c4 : I.W < 1 ∨ I.W > 1000000000000 ∨ I.H < 1 ∨ I.H > 1000000000000
+  · rw [if_pos c4] at h; cases h
+  rw [if_neg c4] at h
+  dsimp only at h
+  cases h1 : checkRowsFrom I P.rowsR 0 P.rowsR with
+  | error e =>
+    rw [h1] at h
+    simp only [bind, Except.bind] at h
+    cases h
+    exact checkRowsFrom_no_oob I _ _ _ h1
+  | ok u =>
+    have hrow := (checkRowsFrom_ok I P.rowsR P.rowsR 0).mp (by cases u; exact h1)
+    rw [h1] at h
+    simp only [bind, Except.bind] at h
+    cases h2 : checkMult I P.rowsR with
+    | error e =>
+      rw [h2] at h
+      simp only at h
+      cases h
+      unfold checkMult at h2
+      split at h2
+      · rename_i a ha
+        have hmem := List.mem_of_find?_eq_some ha
+        obtain ⟨k, hk, rfl⟩ := List.getElem_of_mem hmem
+        have := (checkRow_ok I _ _ _).mp (hrow k hk)
+        obtain ⟨it, hit, _⟩ := this.2.2.2.2.1
+        rw [hit] at h2
+        cases h2
+      · cases h2
+    | ok u2 =>
+      rw [h2] at h
+      exact checkBins_no_oob P.rowsR P.nBins h
+
 end PackVal
